@@ -121,6 +121,7 @@ func (fr *Frame) inlineCall(callee *ssa.Function, mc *ssa.MakeClosure, c *ssa.Ca
 	vc.inlineDepth++
 	defer func() { vc.inlineDepth-- }()
 	sub := vc.newFrame(callee, fr)
+	sub.inlinedHelper = mc == nil && (fr.top || fr.inlinedHelper)
 	for i, p := range callee.Params {
 		if i < len(args) {
 			sub.vals[p] = []string{args[i]}
@@ -709,10 +710,20 @@ func (fr *Frame) valueDescr(v ssa.Value) string {
 
 func (fr *Frame) runSites(ins ssa.Instruction, when string, pc string, st *State, res []string) string {
 	vc := fr.vc
-	if fr.c == nil || !fr.top || len(fr.c.Sites) == 0 {
+	// the site clauses of the function under verification also apply to what small helpers executed symbolically inside it
+	// do (moving a call into a helper does not make it disappear); named locals are then those of the helper
+	top := fr
+	if !fr.top {
+		// only call sites: a helper's stores to objects it has just allocated are not stores of the function's own text
+		if !fr.inlinedHelper || (when != "call" && when != "aftercall") {
+			return pc
+		}
+		top = fr.topFrame()
+	}
+	if top.c == nil || len(top.c.Sites) == 0 {
 		return pc
 	}
-	for _, sa := range fr.c.Sites {
+	for _, sa := range top.c.Sites {
 		w := sa.When
 		if w == "go" || w == "defer" {
 			w = "call"
@@ -724,9 +735,9 @@ func (fr *Frame) runSites(ins ssa.Instruction, when string, pc string, st *State
 		if !fr.siteMatches(sa, ins) {
 			continue
 		}
-		env := vc.newEnv(fr.c.PkgPath, st)
-		env.old = fr.entry
-		fr.bindParams(env)
+		env := vc.newEnv(top.c.PkgPath, st)
+		env.old = top.entry
+		top.bindParams(env)
 		for g := range vc.ghostT {
 			env.vars[g] = tv{t: vc.stGet0(st, "$g."+g), ty: vc.ghostT[g]}
 		}
@@ -880,8 +891,8 @@ func (fr *Frame) runSites(ins ssa.Instruction, when string, pc string, st *State
 			}
 			guard = t
 		}
-		fr.callOrd["site:"+sa.Src]++
-		occ := fr.callOrd["site:"+sa.Src]
+		top.callOrd["site:"+sa.Src]++
+		occ := top.callOrd["site:"+sa.Src]
 		for ai, a := range sa.Acts {
 			// refresh ghost bindings
 			for g := range vc.ghostT {
@@ -1046,6 +1057,10 @@ type savedCell struct {
 // survives the havoc of an unknown call. (Not applied to go/select/receive: concurrent closures may run there.)
 func (fr *Frame) saveCapturedCells(c *ssa.CallCommon, st *State) []savedCell {
 	if !fr.top {
+		// a call made by an inlined helper: what it cannot reach of the function under verification stays as it is
+		if fr.inlinedHelper {
+			return fr.topFrame().saveCapturedCells(c, st)
+		}
 		return nil
 	}
 	for _, a := range c.Args {
@@ -1162,6 +1177,9 @@ func (fr *Frame) havocInterference(st *State) {
 // (tracked symbolically) writes them, so they survive interference.
 func (fr *Frame) saveStableCells(st *State) []savedCell {
 	if !fr.top {
+		if fr.inlinedHelper {
+			return fr.topFrame().saveStableCells(st)
+		}
 		return nil
 	}
 	var out []savedCell
